@@ -4,6 +4,8 @@ import (
 	"math/rand"
 	"sort"
 
+	"github.com/cbehopkins/gkvlite"
+
 	"verifharness/memfile"
 )
 
@@ -24,7 +26,8 @@ var profiles = map[string]Profile{
 	"snap": {"set": 26, "del": 10, "snapshot": 8, "snapread": 10, "snapclose": 6, "snaprevert": 2, "snapsnap": 2, "snapwrite": 3,
 		"flush": 4, "evict": 3, "setcoll": 4, "removecoll": 3, "obs": 8, "get": 3, "otheralloc": 5, "reopen": 1, "visit": 3},
 	// C08: flush / revert
-	"revert": {"set": 20, "del": 6, "flush": 14, "revert": 10, "reopen": 6, "obs": 6, "setcoll": 3, "removecoll": 1, "get": 2},
+	"revert": {"set": 20, "del": 6, "flush": 14, "revert": 10, "reopen": 6, "obs": 6, "setcoll": 3, "removecoll": 1, "get": 2,
+		"collwrite": 3, "writerevert": 3, "delroot": 2},
 	// C12: collection management
 	"colls": {"set": 20, "del": 6, "setcoll": 12, "removecoll": 8, "names": 6, "flush": 6, "reopen": 4, "obs": 8,
 		"snapshot": 2, "snapclose": 2, "get": 4, "evict": 2},
@@ -32,7 +35,7 @@ var profiles = map[string]Profile{
 	"copy": {"set": 30, "del": 6, "flush": 5, "evict": 4, "reopen": 2, "setcoll": 4, "copyto": 6, "snapshot": 2, "obs": 3, "removecoll": 1},
 	// C19: lazy loading: large values, key-only operations in every cache state
 	"lazy": {"set": 20, "del": 8, "get": 14, "exist": 6, "min": 4, "max": 4, "visit": 12, "len": 3, "totals": 2, "enum": 1,
-		"flush": 8, "evict": 8, "reopen": 6, "obs": 2, "setcoll": 1},
+		"flush": 8, "evict": 8, "reopen": 6, "obs": 2, "setcoll": 1, "burst": 4},
 	// C15: reference counting (no Get/Exist: they do not hand the item out)
 	"refs": {"set": 26, "setrand": 4, "del": 10, "get": 10, "min": 3, "max": 3, "visit": 8, "flush": 6, "evict": 8, "exist": 4, "len": 2, "enum": 2,
 		"reopen": 3, "snapshot": 3, "snapread": 4, "snapclose": 3, "setcoll": 3, "removecoll": 2, "obs": 4},
@@ -230,6 +233,57 @@ func (r *seqRun) step() bool {
 			return true
 		}
 		return w.CollWrite(m, name, nil)
+	case "writerevert":
+		// bytes beyond the last root record (Collection.Write), then a revert
+		name, ok := r.existingName(m)
+		if !ok || m.File == nil || len(r.snaps) > 0 {
+			return true
+		}
+		val, _ := w.U.NewValue(w.rng, false, nil)
+		if !w.SetKV(m, name, r.anyKey(name), val, r.prio(), false, nil) || !w.CollWrite(m, name, nil) {
+			return false
+		}
+		if !w.Revert(m, nil) {
+			return false
+		}
+		return w.Obs(m, []string{"api", "peek"}[w.rng.Intn(2)], "C08")
+	case "delroot":
+		// delete the key at the root of a tree (when one side of the root is
+		// empty the persisted child becomes the new root and the next Flush
+		// writes nothing but a root record), then usually flush at once
+		name, ok := r.existingName(m)
+		if !ok {
+			return true
+		}
+		pr := gkvlite.VerifPeek(m.St.GetCollection(name))
+		if pr == nil || pr.Tree == nil || !pr.Tree.Loaded || pr.Tree.Item == nil {
+			return true
+		}
+		if !w.Del(m, name, append([]byte{}, pr.Tree.Item.Key...), nil) {
+			return false
+		}
+		if m.File != nil && w.rng.Intn(3) != 0 {
+			if !w.Flush(m, nil) {
+				return false
+			}
+			w.Decode(m.File)
+		}
+		return true
+	case "burst":
+		// cold caches (re-open), then concurrent key-only readers
+		if m.File == nil || len(r.snaps) > 0 {
+			return true
+		}
+		f := m.File
+		if !w.Flush(m, nil) || !w.Close(m) {
+			return false
+		}
+		h := w.Open(f, nil)
+		if h == nil {
+			return false
+		}
+		r.main = h
+		return w.KeyOnlyBurst(h, 4, 25)
 	case "evict":
 		name, ok := r.existingName(m)
 		if !ok {
